@@ -42,8 +42,12 @@ def module_names(mod_tree: ast.Module) -> set[str]:
 def _canon_if(node: ast.If):
     """(test, body, orelse) with a negated test of an if/else turned round (elif chains are left alone)."""
     t, b, o = node.test, node.body, node.orelse
-    if o and not (len(o) == 1 and isinstance(o[0], ast.If)) and isinstance(t, ast.UnaryOp) and isinstance(t.op, ast.Not):
-        return t.operand, o, b
+    if o and not (len(o) == 1 and isinstance(o[0], ast.If)):
+        if isinstance(t, ast.UnaryOp) and isinstance(t.op, ast.Not):
+            return t.operand, o, b
+        if isinstance(t, ast.Compare) and len(t.ops) == 1 and isinstance(t.ops[0], (ast.NotEq, ast.NotIn, ast.IsNot, ast.LtE, ast.GtE)):
+            pos = {ast.NotEq: ast.Eq, ast.NotIn: ast.In, ast.IsNot: ast.Is, ast.LtE: ast.Gt, ast.GtE: ast.Lt}[type(t.ops[0])]
+            return ast.Compare(left=t.left, ops=[pos()], comparators=t.comparators), o, b
     return t, b, o
 
 
@@ -154,7 +158,28 @@ class PM:
     def _is_ellipsis_stmt(s) -> bool:
         return isinstance(s, ast.Expr) and isinstance(s.value, ast.Constant) and s.value.value is Ellipsis
 
+    @staticmethod
+    def _independent(s1, s2) -> bool:
+        """Two adjacent plain assignments to distinct local names, neither reading the other's target, no call / await in
+        either: their order is unobservable, so a pattern may list them either way round."""
+        for s in (s1, s2):
+            if not (isinstance(s, ast.Assign) and len(s.targets) == 1 and isinstance(s.targets[0], ast.Name)):
+                return False
+            if any(isinstance(x, (ast.Call, ast.Await, ast.Yield, ast.YieldFrom, ast.NamedExpr)) for x in ast.walk(s.value)):
+                return False
+        a, b = s1.targets[0].id, s2.targets[0].id
+        r1 = {x.id for x in ast.walk(s1.value) if isinstance(x, ast.Name)}
+        r2 = {x.id for x in ast.walk(s2.value) if isinstance(x, ast.Name)}
+        return a != b and a not in r2 and b not in r1
+
     def _mlist(self, pats: list, tgts: list, env) -> bool:
+        if self._mlist0(pats, tgts, env):
+            return True
+        if len(tgts) >= 2 and isinstance(tgts[0], ast.stmt) and isinstance(tgts[1], ast.stmt) and pats and not (isinstance(pats[0], ast.AST) and self._is_ellipsis_stmt(pats[0])) and self._independent(tgts[0], tgts[1]):
+            return self._mlist0(pats, [tgts[1], tgts[0]] + list(tgts[2:]), env)
+        return False
+
+    def _mlist0(self, pats: list, tgts: list, env) -> bool:
         if not pats:
             return not tgts
         if pats and isinstance(pats[0], ast.AST) and self._is_ellipsis_stmt(pats[0]):
@@ -180,16 +205,33 @@ class PM:
         return False
 
     # ------------------------------------------------------------------
-    def _parse(self, pat: str):
+    def _parse(self, pat: str, temps: bool = True):
+        """-> (pattern node | list of statement nodes, is_statement).  Patterns get the same canonical forms as the code."""
+        from .canon import canon_pattern as _cp
+
+        def canon_pattern(n):
+            return _cp(n, temps)
+
         tree = ast.parse(pat)
         node = tree.body[0]
-        if isinstance(node, ast.Expr) and not self._is_ellipsis_stmt(node):
-            return node.value, False
-        return node, True
+        if len(tree.body) == 1 and isinstance(node, ast.Expr) and not self._is_ellipsis_stmt(node):
+            return canon_pattern(node.value), False
+        body = canon_pattern(tree.body if len(tree.body) > 1 else node)
+        return (body[0] if len(body) == 1 else body), True
 
     def find_all(self, pat: str, scope: ast.AST | None = None, commit: bool = False) -> list[ast.AST]:
         """All matches in source order; with commit the bindings of the first one are kept."""
-        pnode, is_stmt = self._parse(pat)
+        out = self._find_all(pat, scope, commit, True)
+        if not out and "\n" in pat:
+            # whether a temporary of the pattern is folded into its use depends on the code around it (it is folded only when
+            # it is defined once in the function): accept the unfolded spelling too
+            out = self._find_all(pat, scope, commit, False)
+        return out
+
+    def _find_all(self, pat: str, scope, commit: bool, temps: bool) -> list[ast.AST]:
+        pnode, is_stmt = self._parse(pat, temps)
+        if isinstance(pnode, list):
+            return self._find_seq(pnode, scope, commit)
         it = body_walk(scope if scope is not None else self.fi.node) if scope is None or isinstance(scope, (ast.FunctionDef, ast.AsyncFunctionDef)) else walk_no_nested(scope)
         cands = [n for n in it if (isinstance(n, ast.stmt) if is_stmt else isinstance(n, ast.expr))]
         cands.sort(key=lambda n: (getattr(n, "lineno", 0), getattr(n, "col_offset", 0)))
@@ -201,6 +243,31 @@ class PM:
                 if commit:
                     self.env = e2
                     commit = False
+        return out
+
+    def _find_seq(self, pats: list, scope, commit: bool) -> list[ast.AST]:
+        """A pattern whose canonical form is several statements: they must occur consecutively in one statement list."""
+        root = scope if scope is not None else self.fi.node
+        out = []
+        blocks = []
+        for n in ([root] + list(body_walk(root) if isinstance(root, (ast.FunctionDef, ast.AsyncFunctionDef)) else walk_no_nested(root))):
+            for fld in ("body", "orelse", "finalbody"):
+                lst = getattr(n, fld, None)
+                if isinstance(lst, list) and lst and isinstance(lst[0], ast.stmt):
+                    blocks.append(lst)
+            for h in getattr(n, "handlers", []) or []:
+                blocks.append(h.body)
+            for c in getattr(n, "cases", []) or []:
+                blocks.append(c.body)
+        for lst in blocks:
+            for i in range(len(lst) - len(pats) + 1):
+                e2 = dict(self.env)
+                if self._mlist(pats, lst[i:i + len(pats)], e2):
+                    out.append(lst[i])
+                    if commit:
+                        self.env = e2
+                        commit = False
+        out.sort(key=lambda n: (getattr(n, "lineno", 0), getattr(n, "col_offset", 0)))
         return out
 
     def find(self, pat: str, scope: ast.AST | None = None) -> ast.AST | None:
